@@ -1,7 +1,10 @@
 """Shared definitions for the hash-table checks C05-C09 (harness/c05_lfht.c)."""
 from checks.common import Build, Job
 
-BUILDS = [Build("lfht", "harness/c05_lfht.c", flavor="spec", cds=True)]
+BUILDS = [Build("lfht", "harness/c05_lfht.c", flavor="spec", cds=True),
+          Build("lfht_memb", "harness/c05_lfht.c", flavor="memb", cds=True),
+          Build("lfht_bp", "harness/c05_lfht.c", flavor="bp", cds=True)]
+REAL = (("lfht_memb", {"VRT_MEMBARRIER": 2}), ("lfht_bp", {"VRT_MEMBARRIER": 0}))
 
 # op bytes of the program interpreter in harness/c05_lfht.c
 K_ADD, K_ADDU, K_ADDR, K_REPL, K_DEL, K_LOOKUP, K_WALKK, K_WALKALL, K_RESIZE, K_DELN, K_REPLN, K_COUNT = range(1, 13)
@@ -17,6 +20,12 @@ def prog(*ops):
 
 def conc(budget, workers=8, **params):
     return Job("lfht", "conc", budget, params, workers=workers)
+
+
+def conc_real(build, env, budget, workers=8, **params):
+    params.setdefault("qs_attempts", 1)
+    params.setdefault("wait_attempts", 1)
+    return Job(build, "conc", budget, params, env, workers=workers)
 
 
 def seq(budget="0,0,0,0", workers=8, horizon=None, **params):
